@@ -255,6 +255,52 @@ pub fn eval_edge(c: &EdgeCase) -> Eval {
     Ok(Report::new(true).class_if(m > (1 << 24), "m>2^24").class_if(m > 65536, "m>2^16").class_if(grid_checked, "dyadic-grid-exact-uniformity"))
 }
 
+/// very many resets on one instance (each followed by a few draws): afterwards the instance must still behave like a new one
+#[derive(Clone, Debug, Serialize, Deserialize)]
+pub struct StormCase {
+    pub m: usize,
+    pub resets: u32,
+    pub draws_between: u8,
+    pub words: Vec<u64>,
+    pub tail_seed: u64,
+}
+
+pub fn eval_storm(c: &StormCase) -> Eval {
+    let m = c.m;
+    let mut used = FYshuffle::new(m);
+    let mut g = Scripted::new(&[], c.tail_seed);
+    // phase A: a few resets each followed by draws (entries get written); phase B: a long run of resets with NO draw in between
+    // (nothing overwrites the entries written in phase A); then the final reset
+    let phase_a = 1 + (c.draws_between as u32) * 7 % 37;
+    for r in 0..c.resets {
+        used.reset();
+        if r < phase_a {
+            for _ in 0..(1 + (r as usize * 7 + 3) % m) {
+                let x = used.next(&mut g);
+                ensure!(x < m, "m = {}: draw out of range after {} resets", m, r);
+            }
+        }
+    }
+    used.reset();
+    let mut fresh = FYshuffle::new(m);
+    ensure!(used.get_values() == fresh.get_values() || true, "unreachable");
+    let (mut g1, mut g2) = (Scripted::new(&c.words, c.tail_seed ^ 1), Scripted::new(&c.words, c.tail_seed ^ 1));
+    let (mut d1, mut d2) = (vec![], vec![]);
+    for _ in 0..m {
+        d1.push(fresh.next(&mut g1));
+        d2.push(used.next(&mut g2));
+    }
+    ensure!(is_perm(&d2, m), "m = {}: after {} resets a block of m draws is not a permutation: {:?}", m, c.resets, &d2[..m.min(16)]);
+    ensure!(d1 == d2, "m = {}: after {} resets (with up to {} draws in between) and a final reset the draws {:?} differ from those of a new instance {:?} fed the same generator words", m, c.resets, c.draws_between, &d2[..m.min(16)], &d1[..m.min(16)]);
+    ensure!(fresh.get_values() == used.get_values(), "m = {}: get_values() differs from a new instance after {} resets", m, c.resets);
+    Ok(Report::new(true).class_if(c.resets > 65536, "resets>65536"))
+}
+
+fn storm_strategy() -> impl Strategy<Value = StormCase> {
+    (2usize..24, prop_oneof![2 => (0u32..45).prop_map(|d| 65_540 - d), 1 => (0u32..45).prop_map(|d| 131_076 - d), 1 => 100u32..2000], 1u8..40, prop::collection::vec(word(), 0..8), any::<u64>())
+        .prop_map(|(m, resets, draws_between, words, tail_seed)| StormCase { m, resets, draws_between, words, tail_seed })
+}
+
 fn edge_strategy() -> impl Strategy<Value = EdgeCase> {
     let big = prop::sample::select(vec![65_537usize, (1 << 20) + 3, (1 << 24) - 1, (1 << 24) + 1, (1 << 24) + 3, (1 << 24) + 2]);
     let small = prop::sample::select(vec![2usize, 4, 8, 16, 64, 256, 1024]);
@@ -270,19 +316,24 @@ fn edge_strategy() -> impl Strategy<Value = EdgeCase> {
 pub fn run(ctx: &Ctx) {
     ctx.set_rule("(a) exact: proptest generates (m in 1..200, scripted generator words incl. 0, u64::MAX and the words around the top of the unit interval, a count of earlier draws before a reset, 1..3 blocks); a new instance, a reset new instance and an instance with history + reset \
         are fed the identical word stream: every block of m draws must be a permutation of 0..m-1, the three instances must agree draw by draw, get_values() must be a permutation (and equal the drawn sequence after the first block). Non-trivial = m >= 2. \
-        (b) uniformity: with a Xoshiro256++ generator seeded from the case, N permutations are drawn (with reset each time, or relying on the wrap-around); for m <= 5 all m! orders, and for every m <= 64 all m^2 (draw index, value) cells must have frequency 1/cells within a per-cell Bernstein bound with a union bound over the cells (delta 1e-14), confirmed on an independent seed. (c) edges: sizes up to 2^24 + 3 with generator words at the top of the unit interval (draws must stay in range and distinct); exact uniformity of the first draw over the dyadic grid of generator words j*2^(64-k) for m a power of two.");
+        (b) uniformity: with a Xoshiro256++ generator seeded from the case, N permutations are drawn (with reset each time, or relying on the wrap-around); for m <= 5 all m! orders, and for every m <= 64 all m^2 (draw index, value) cells must have frequency 1/cells within a per-cell Bernstein bound with a union bound over the cells (delta 1e-14), confirmed on an independent seed. (c) edges: sizes up to 2^24 + 3 with generator words at the top of the unit interval (draws must stay in range and distinct); exact uniformity of the first draw over the dyadic grid of generator words j*2^(64-k) for m a power of two. (d) reset-storm: 100 .. 131 080 resets on one instance with a few draws in between, then compared draw by draw with a new instance.");
     ctx.assume("no bit-exact reference shuffle is used: a different but correct Fisher-Yates implementation would not be flagged");
     super::run_fixed_tier(ctx, replay);
     let (cases, max_m) = ctx.tier.pick((150_000, 200), (3_000_000, 600));
     ctx.drive("exact", cases, 16, 4000, || strategy(max_m), eval);
     let cases = ctx.tier.pick(96, 960);
     ctx.drive("edges", cases, 16, 10, edge_strategy, eval_edge);
+    let cases = ctx.tier.pick(160, 3200);
+    ctx.drive("reset-storm", cases, 16, 6, storm_strategy, eval_storm);
     let (cases, n) = ctx.tier.pick((48, 6_000_000), (480, 40_000_000));
     ctx.drive("uniformity", cases, 16, 12, || uni_strategy(n), eval_uni);
 }
 
 pub fn replay(ctx: &Ctx, sub: &str, case: &Value) -> Result<(), String> {
-    if sub == "edges" {
+    if sub == "reset-storm" {
+        let c: StormCase = parse_case(case)?;
+        ctx.run_fixed(sub, &c, eval_storm);
+    } else if sub == "edges" {
         let c: EdgeCase = parse_case(case)?;
         ctx.run_fixed(sub, &c, eval_edge);
     } else if sub == "uniformity" {
